@@ -1769,6 +1769,9 @@ get_preprocessor_args(int c, string &args) {
   // Check for comments first.
   c = skip_comment(c);
 
+  // Inside a string or character literal, // and /* do not begin a comment.
+  int quote = 0;
+
   while (c != EOF && c != '\n') {
     if (c == '\\') {
       int next_c = get();
@@ -1783,9 +1786,15 @@ get_preprocessor_args(int c, string &args) {
         }
       }
     } else {
+      if (quote == 0 && (c == '"' || (c == '\'' && (args.empty() || !isalnum(args.back()))))) {
+        // (An apostrophe after a digit is a digit separator.)
+        quote = c;
+      } else if (c == quote) {
+        quote = 0;
+      }
       args += c;
     }
-    c = skip_comment(get());
+    c = (quote != 0) ? get() : skip_comment(get());
   }
 
   // Remove any leading and trailing whitespace from the args.
